@@ -7,6 +7,41 @@ import (
 func allChecks() []*Check {
 	return []*Check{
 		{
+			ID: "C18", Title: "Registration and keep-alive follow the protocol",
+			Harnesses: []Harness{
+				{Pkg: "client", Func: "VerifC18Register", Asserts: []string{"registration-line-count", "registration-line"}},
+				{Pkg: "client", Func: "VerifC18Dial", Quick: map[string]int{"HL": 2}, Thorough: map[string]int{"HL": 4}, Asserts: []string{"dialled-address", "register-once-before-connect-returns", "failed-connect-fires-nothing", "registration-sent"}},
+				{Pkg: "client", Func: "VerifC18Ping", Quick: map[string]int{"TL": 3}, Thorough: map[string]int{"TL": 6}, Asserts: []string{"pong-same-token", "ping-token-parsed"}},
+				{Pkg: "client", Func: "VerifC18Keepalive", Asserts: []string{"monitor:ping-goroutine-started", "monitor:no-ping-goroutine", "monitor:one-ping-per-tick"}},
+			},
+			Bounds: map[string]string{"quick": "registration: CAP negotiation on/off, password 0..2 bytes, nick/ident/name 1..2 bytes (all bytes but CR/LF), tracking on/off; dial: host 1..2 ASCII bytes, without port / with :port (0..2 digits) / bracketed IPv6 with port, SSL on/off, dial ok/refused, through a harness proxy dialer; PING tokens 0..3 bytes as trailing or middle parameter, with/without source; PingFreq any value in [-5, 2^40]",
+				"thorough": "host up to 4 bytes, tokens up to 6 bytes"},
+			Outside:     []string{"the direct (non-proxy) dial path and real TLS (the dialler and the handshake are stubs)", "bare or port-less bracketed IPv6 literals", "the tick period in real time; the PING payload text (fmt.Sprintf is a stub)", "tokens longer than the bound (lines beyond bufio's buffer are covered by C01's delivery harness)"},
+			Stubs:       []string{"x/net/proxy.FromURL dispatches to the harness dialer registered for scheme vtest", "crypto/tls.Client + Handshake: fails", "time.NewTicker: N queued ticks", "context model", "fmt.Sprintf arbitrary text"},
+			QuickBudget: 5 * time.Minute, ThorBudget: 30 * time.Minute,
+		},
+		{
+			ID: "C06", Title: "Lifecycle events fire exactly once and agree with Connected()",
+			Harnesses: []Harness{
+				{Pkg: "client", Func: "VerifC06Refused", Asserts: []string{"refused-with-error", "no-event-fired", "live-connection-untouched", "close-noop-returns-nil", "tracker-not-wiped"}},
+			},
+			Bounds:      map[string]string{"quick": "", "thorough": ""},
+			QuickBudget: 5 * time.Minute, ThorBudget: 30 * time.Minute,
+		},
+		{
+			ID: "C17", Title: "The client always knows its own current nick",
+			Harnesses: []Harness{
+				{Pkg: "client", Func: "VerifC17Step", Quick: map[string]int{"NL": 2}, Thorough: map[string]int{"NL": 3},
+					Asserts: []string{"asks-for-generated-nick", "config-me-non-nil", "me-non-nil", "me-is-servers-nick", "no-unprompted-nick-change"}},
+				{Pkg: "client", Func: "VerifC17NewNick", Asserts: []string{"same-length", "same-prefix", "last-byte-differs"}},
+			},
+			Bounds:      map[string]string{"quick": "one server event {433 before the welcome, 001 same/different nick with/without nick!user@host, own NICK (both parameter forms), 433 after the welcome, NICK of another user} from any state satisfying 'Me().Nick = server's nick'; nicks 1..2 symbolic bytes; tracking on/off; default and custom (uninterpreted) generator; DefaultNewNick for all byte strings of length 1..3", "thorough": "nicks 1..3 bytes"},
+			Outside:     []string{"longer nicks, more than one other tracked user", "non-conformant servers (433 before the welcome for a nick other than the pending one; renaming onto a nick in use)"},
+			Stubs:       []string{"goroutines run to completion", "sync.* ghost models"},
+			Assumptions: []string{"server conformance as stated in the property"},
+			QuickBudget: 5 * time.Minute, ThorBudget: 30 * time.Minute,
+		},
+		{
 			ID: "C14", Title: "Tracker answers are private snapshots, and the tracker is safe to share",
 			Harnesses: []Harness{
 				{Pkg: "state", Func: "VerifC14Step", Quick: map[string]int{"NN": 2, "NC": 1}, Thorough: map[string]int{"NN": 3, "NC": 2},
